@@ -431,9 +431,11 @@ def plant(b: Body, lines: list[str], env: dict, m: dict) -> list[str]:
         ins = [[f"{q} = qubit()" for q in qs] + [f"if {b.expr(env, 'bool')}:"]
                + [f"    discard({q})" for q in qs]]
     elif kind == "assign_captured":
-        v = b.fresh("cv")
-        ins = [[f"{v} = 1", f"def {b.fresh('nf')}(p: int) -> int:", f"    r = {v} + p",
-                f"    {v} = p", "    return r"]]
+        # k captured variables are illegally assigned back to back in ONE block of the closure
+        vs_ = [b.fresh("cv") for _ in range(k)]
+        ins = [[f"{v} = 1" for v in vs_] + [f"def {b.fresh('nf')}(p: int) -> int:",
+                                            f"    r = {' + '.join(vs_)} + p"]
+               + [f"    {v} = p" for v in vs_] + ["    return r"]]
     elif kind == "unsupported_syntax":
         forms = (["while False:", "    pass", "else:", "    pass"],
                  ["try:", "    pass", "except Exception:", "    pass"],
